@@ -62,6 +62,16 @@ Proof.
   apply (deadlock_free_lemma sk sg g e (H _ Hin) HO [] (initial_nil _ _ _) S Hs Hl).
 Qed.
 
+Lemma tree_deadlock_free_wp_lemma : tree_analysis_ok = true -> tree_lock_order_ok = true ->
+  forall name g e sk sg, In (name, g, e, sk, sg) services ->
+    forall S, xsteps sg g e [] S -> live S -> can_step_wp g S.
+Proof.
+  intros H HO name g e sk sg Hin S Hs Hl.
+  unfold tree_analysis_ok in H. rewrite forallb_forall in H.
+  unfold tree_lock_order_ok in HO. rewrite forallb_forall in HO. specialize (HO _ Hin). cbn in HO.
+  apply (deadlock_free_wp_lemma sk sg g e (H _ Hin) HO [] (initial_nil _ _ _) S Hs Hl).
+Qed.
+
 (* ------------------------------------------------------------------------------------------ *)
 (* witnesses *)
 
@@ -124,4 +134,19 @@ Proof.
     + injection Hi as <-. unfold may_step in Hm. cbn in Hm.
       destruct (Hm 0%nat (At 1, [(1, true)]) ltac:(discriminate) eq_refl true ltac:(left; reflexivity)). discriminate.
     + destruct i; discriminate.
+Qed.
+
+(* writer preference bites: in the guarded example a reader at its RLock waits for the writer that sits at
+   its Lock, and the writer can go *)
+Lemma writer_preference_example :
+  let S := [(At 0, []); (At 3, [])] in
+  may_step guarded_example S 1 /\ ~ may_step_wp guarded_example S 1 /\ can_step_wp guarded_example S.
+Proof.
+  cbn zeta. split; [|split].
+  - unfold may_step. cbn. intros j t Hne Hj x' Hin.
+    destruct j as [|[|j]]; [|congruence|destruct j; discriminate]. injection Hj as <-. destruct Hin.
+  - intros [_ H]. cbn in H. specialize (H 0%nat (At 0, []) ltac:(discriminate) eq_refl). discriminate.
+  - exists 0%nat, (At 0, []), 0%nat, (At 1, [(1, true)]). split; [reflexivity|split; [reflexivity|]].
+    split; [|exact I]. unfold may_step. cbn. intros j t Hne Hj x' Hin.
+    destruct j as [|[|j]]; [congruence| |destruct j; discriminate]. injection Hj as <-. destruct Hin.
 Qed.
